@@ -12,5 +12,9 @@ class KDRandomApply(KDRandomApplyBase):
             self.transform.set_rng(rng)
         return super().set_rng(rng)
 
+    def _scale_strength(self, factor):
+        if isinstance(self.transform, KDTransform):
+            self.transform.scale_strength(factor)
+
     def forward(self, x, ctx):
         return self.transform(x, ctx)
